@@ -1,5 +1,6 @@
 import Rbp.Proofs.OpReturn
 import Rbp.Proofs.RunSpec
+import Rbp.Proofs.Lossy
 /-!
 # C16 — opreturn prints exactly the non-empty UTF-8 payloads, in chain order
 -/
@@ -53,6 +54,16 @@ theorem opreturn_run_spec (o : Run.Opts) (key : Option W.Bytes) (kvs : List (W.B
   refine ⟨h0, ?_, ?_⟩
   · rw [hf]; simp only [Run.callbackOut, hcb]
   · rw [ho]; simp only [Run.callbackOut, hcb]
+
+/-- fork coins print well-formed UTF-8 payloads exactly: on every string accepted by Unicode's Table 3-7 (`L.valid`), the
+    lossy decoder is the identity — U+FFFD appears only where the bytes are ill-formed.  (That `L.valid` agrees with the
+    validator used on the Bitcoin path, core Lean's `validateUTF8`, and with Rust's `from_utf8`, is checked by the `utf8`
+    family of the correspondence on adversarial strings.) -/
+theorem lossy_valid_id (p : Bytes) (h : L.valid p = true) : L.lossy p = p := L.lossy_of_valid p.length p rfl h
+
+/-- non-vacuity: "é€😀" (2-, 3- and 4-byte sequences) is accepted; a lone continuation byte and an overlong "/" are not -/
+example : L.valid [0xC3, 0xA9, 0xE2, 0x82, 0xAC, 0xF0, 0x9F, 0x98, 0x80] = true ∧ L.valid [0x80] = false ∧ L.valid [0xC0, 0xAF] = false := by
+  refine ⟨?_, ?_, ?_⟩ <;> simp +decide [L.valid, L.second, L.isCont]
 
 /-- non-vacuity: the 76..80 byte range needs PUSHDATA1 and is well-formed there, not as a direct push -/
 example : (T.Tok.push .pd1 (List.replicate 80 0x41)).WF ∧ ¬ (T.Tok.push .direct (List.replicate 80 0x41)).WF := by
